@@ -32,6 +32,8 @@ def main():
         tasks = mod.tasks(a.tier)
         if a.only:
             tasks = [t for t in tasks if a.only in t[0]]
+            # a partial run must never overwrite the evidence of the full check
+            os.environ.setdefault("VERIF_EVIDENCE_DIR", os.path.join(framework.VERIF, ".partial_evidence"))
         timeout_ms = getattr(mod, "TIMEOUT_MS", {}).get(a.tier, 60000 if a.tier == "quick" else 300000)
         # the tasks are forked from a process that has already used the public API with other arguments
         # (see vf/warmup.py): state leaking between calls shows up in the tasks' claims
